@@ -13,7 +13,7 @@ CHECKS = {
         note=TRUST + "Names/comments embedding record signatures are skipped by a computed ambiguity predicate (R2).",
         tech="deterministic simulation: seeded program + I/O-schedule search against a reference model (finish vs drop crash point)"),
     "C02": dict(level="exploration", ref="DESIGN.md §4 C02",
-        text="Same simulated runs over the full writer alphabet (extra data, aligned, ZipCrypto, raw copy, append rounds, over-long fields); every archive the writer reports as successful is judged by an independent strict parser (Appendix D rules), by CPython's zipfile and (where it applies) Info-ZIP unzip -t, and unrepresentable inputs must be rejected; the same programs also run on a sparse simulated disk around the 4 GiB / 65535-entry limits (ZIP64 clause), with passwords and the path-taking calls drawn for every entry-creating call. Exploration over programs and schedules.",
+        text="Same simulated runs over the full writer alphabet (extra data, aligned, ZipCrypto, raw copy, append rounds, over-long fields); every archive the writer reports as successful is judged by an independent strict parser (Appendix D rules), by CPython's zipfile and (where it applies) Info-ZIP unzip -t, and unrepresentable inputs must be rejected; the same programs also run on a sparse simulated disk around the 4 GiB / 65535-entry limits (ZIP64 clause), with passwords and the path-taking calls drawn for every entry-creating call. Exploration over programs and schedules. The validator also judges the destinations of raw copies of ZIP64-sized entries (rawcopy_huge: ZIP64 records, their order, local/central agreement).",
         note=TRUST + "Literal 0xFFFF/0xFFFFFFFF without ZIP64 is accepted where no ZIP64 record is present.",
         tech="deterministic simulation: seeded program + I/O-schedule search judged by an independent APPNOTE parser"),
     "C03": dict(level="exploration", ref="DESIGN.md §4 C03",
@@ -25,7 +25,7 @@ CHECKS = {
         note=TRUST + "The CRC of the returned bytes is recomputed by the harness's own CRC-32.",
         tech="deterministic simulation: enumerated bit-rot faults on simulated storage, read under seeded short-read schedules"),
     "C05": dict(level="exploration", ref="DESIGN.md §4 C05",
-        text="Crash-truncated, torn, bit-rotted, spliced and structure-aware lying images (every prefix, every representative byte value at every structural offset, every header field x boundary value of small seeds are enumerated; random multi-site damage and arbitrary bytes are sampled) are driven through the whole reading surface (seekable reader, raw/decrypt/by-name access, all accessors, the provided methods of std::io::Read (read_to_end, read_to_string, read_exact, io::copy, bytes) where the real output is bounded by the input, streaming reader, visitor, open-for-append) in monitored worker processes; header fields are lied about one at a time and in combinations that vouch for each other (entry count + directory size, offset + size, both sizes, all variable lengths); panics (overflow checks on), aborts, step-budget overruns and heap blow-ups while opening are violations.",
+        text="Crash-truncated, torn, bit-rotted, spliced and structure-aware lying images (every prefix, every representative byte value at every structural offset, every header field x boundary value of small seeds are enumerated; random multi-site damage and arbitrary bytes are sampled) are driven through the whole reading surface (seekable reader, raw/decrypt/by-name access, all accessors, the provided methods of std::io::Read (read_to_end, read_to_string, read_exact, io::copy, bytes) where the real output is bounded by the input, streaming reader, visitor, open-for-append) in monitored worker processes; header fields are lied about one at a time and in combinations that vouch for each other (entry count + directory size, offset + size, both sizes, all variable lengths); panics (overflow checks on), aborts, step-budget overruns and heap blow-ups while opening are violations. Seeds carry the extra records real archivers write (Unicode path/comment with the CRC of the header's own name, UT, ux, NTFS, ASi, ...), well formed or claiming a length other than their body's.",
         note=TRUST + "Heap bound 1024 x len + 8 MiB by a counting allocator; step budget 4M + 16 x len I/O calls; wall-clock watchdog for loops without I/O.",
         tech="deterministic simulation: seeded + enumerated storage faults (crash points, bit rot, lying fields) with panic/abort/step/heap monitors"),
     "C07": dict(level="exploration", ref="DESIGN.md §4 C07",
@@ -33,7 +33,7 @@ CHECKS = {
         note=TRUST + "The sink is the real kernel FS on purpose (confinement is about what the kernel does with the path); even a real escape cannot leave the sandbox.",
         tech="deterministic simulation of the archive source + sandboxed real-FS snapshot oracle over a seeded hostile-name grammar"),
     "C08": dict(level="exploration", ref="DESIGN.md §4 C08",
-        text="A sparse simulated disk makes the 16/32-bit limits cheap to hit exactly: sinks pre-positioned around 2^32 (header/directory offsets at 2^32-2..2^32+1), Stored payloads of 2^32-2..2^32+1 bytes with and without large_file, 65534..70000 entries, combinations with comments and append rounds, plus foreign archives with ZIP64 fields forced on small files in all subsets; model equality through the crate's reader and the independent validator's ZIP64 rules.",
+        text="A sparse simulated disk makes the 16/32-bit limits cheap to hit exactly: sinks pre-positioned around 2^32 (header/directory offsets at 2^32-2..2^32+1), Stored payloads of 2^32-2..2^32+1 bytes with and without large_file, 65534..70000 entries, combinations with comments and append rounds, plus foreign archives with ZIP64 fields forced on small files in all subsets; model equality through the crate's reader and the independent validator's ZIP64 rules. Raw copies of ZIP64-sized entries (rawcopy_huge) and a compressed 4 GiB entry behind a header offset beyond 4 GiB are part of the quick tier.",
         note=TRUST + "Huge payloads are zeros with marker bytes (sparse); compressing methods across 4 GiB and 5 GiB payloads only in the thorough tier.",
         tech="deterministic simulation on a sparse simulated disk, boundary-directed seeded search against model + independent parser"),
     "C09": dict(level="exploration", ref="DESIGN.md §4 C09",
@@ -57,7 +57,7 @@ CHECKS = {
         note=TRUST + "One known finding (D12, archive shrinks on append) is matched semantically and reported as KNOWN-FINDING.",
         tech="deterministic simulation: seeded restart histories on durable simulated storage against an accumulated reference model"),
     "C14": dict(level="exploration", ref="DESIGN.md §4 C14",
-        text="Two simulated disks (source archive, destination writer); programs interleave raw copies (by index / name / raw, optional rename, first/last/only positions) with ordinary entries under short-read/short-write schedules; the destination extent must be byte-identical to the source's, metadata equal, neighbours intact, and the archive must validate independently.",
+        text="Two simulated disks (source archive, destination writer); programs interleave raw copies (by index / name / raw, optional rename, first/last/only positions) with ordinary entries under short-read/short-write schedules; the destination extent must be byte-identical to the source's, metadata equal, neighbours intact, and the archive must validate independently. A second scenario (rawcopy_huge) raw-copies ZIP64-sized source entries laid down by hand on the sparse disk (both sizes beyond 4 GiB and different, only one beyond, exactly 0xFFFFFFFF) into writers positioned at 0 or around 4 GiB.",
         note=TRUST + "Sources from the crate's writer and the independent builder incl. methods the crate cannot decode and data-descriptor entries.",
         tech="deterministic simulation: seeded two-disk programs with I/O schedules, extent equality via the independent parser"),
     "C15": dict(level="exploration", ref="DESIGN.md §4 C15",
@@ -69,7 +69,7 @@ CHECKS = {
         note=TRUST + "The independent AES composition is validated at start-up against the third-party fixture in /repo/tests/data.",
         tech="deterministic simulation: enumerated bit-flip faults on simulated storage + seeded short-read schedules"),
     "C17": dict(level="exploration", ref="DESIGN.md §4 C17",
-        text="Programs with aligned and extra-data entries after arbitrary prefixes (and sinks positioned anywhere, incl. beyond 2^32 in C08 runs): the data offset in the image must be a multiple of the alignment, equal the reader's data_start and the values the calls returned; local / central extra data must land verbatim where requested; malformed, reserved and oversized extra data must be refused.",
+        text="Programs with aligned and extra-data entries after arbitrary prefixes (and sinks positioned anywhere, incl. beyond 2^32 in C08 runs): the data offset in the image must be a multiple of the alignment, equal the reader's data_start and the values the calls returned; local / central extra data must land verbatim where requested; malformed, reserved and oversized extra data must be refused. Aligned / extra-data entries are preceded, one time in four, by a raw copy, an append round, a directory, a symlink or an encrypted entry.",
         note=TRUST + "Alignments are drawn from boundary values, powers of two and uniformly from 0..65535.",
         tech="deterministic simulation: seeded programs with alignment arithmetic checked on the image by the independent parser"),
     "C20": dict(level="exploration", ref="DESIGN.md §4 C20",
